@@ -347,6 +347,19 @@ def typed_source(idx, t, part, mask):
             f"  for (auto& c : r.comps) if (c.name == \"{name(t)}\") {call}(c);\n}}\n")
 
 
+def typed_group_source(gid, members):
+    """members: list of (idx, tree, part, mask) - several small typed sets in one TU"""
+    s = HEADER
+    body = ""
+    for idx, t, part, mask in members:
+        em = Emit()
+        T, _, _ = em.go(t)
+        call = {"r": f"add_typed_reduced<t{idx}, {mask}u>", "m": f"add_typed_mini<t{idx}, {mask}u>"}[part]
+        s += f"namespace {{ using t{idx} = {T}; }}\n"
+        body += f"    if (c.name == \"{name(t)}\") {call}(c);\n"
+    return s + f"void adapt_typedg_{gid}(adapt::registry& r) {{\n  for (auto& c : r.comps) {{\n{body}  }}\n}}\n"
+
+
 def probe_source(idx, t):
     return HEADER + "namespace {\n" + comp_source(idx, t) + "}\n" + \
         f"void adapt_probe_{idx}(adapt::registry& r) {{ c{idx}::reg(r); }}\n"
